@@ -62,7 +62,7 @@ class C13(Check):
         'first_input_intact_after_two_ops': 'after op2(op1(s)) the original s is still intact',
         'deep_copy_shares_nothing_mutable': 'object graphs of copy and source share no list / array buffer / container (scalar and array-valued hyper-parameters)',
         'deep_copy_mutation_isolated': 'writing every mutable leaf of the copy leaves the source unchanged',
-        'setter_rederives_membership': 'assigning an equal labelling is a no-op; any other re-derives all K member lists, including emptied clusters',
+        'setter_rederives_membership': 'assigning an equal labelling is a no-op; any other (labels in -1..K-1, -1 = not labelled) re-derives all K member lists, including emptied clusters; unlabelled points belong to no cluster',
     }
     stubs = ['kernel summarised as "any labelling" for the relabel operation', 'stub pool, admm summary, inv/det opaque',
              'norm -> arbitrary spread; random.sample -> any distinct draw']
@@ -248,7 +248,7 @@ class C13(Check):
         same = list(before)
         st.point_labels = same
         f = [states.invariant(st, K, P), all(a is b for a, b in zip(members_objs, [cl.member_points for cl in st.clusters]))]
-        new = [c.int('n_%d' % i, 0, K - 1) for i in range(P)]
+        new = [c.int('n_%d' % i, -1, K - 1) for i in range(P)]      # -1 = point not labelled (documented)
         st.point_labels = new
         c.notes.update({'op': 'setter', 'K': K, 'P': P, 'labels': before, 'labels_after': states.labels_of(st)})
         f.append(states.invariant(st, K, P))
